@@ -17,8 +17,12 @@ Definition slow := (list Z * list Z * float)%type.
 Definition lobs := (list Z * slow)%type.
 (** full observation after a step: chosen link (-1 = none), datagrams on each wire, links *)
 Definition fobs := (Z * list Z * list lobs)%type.
-(** as written by the harness: slow parts only for the links where they changed *)
-Definition sobs := (Z * list Z * list (list Z) * list (Z * slow))%type.
+(** as written by the harness (constructor forms elaborate much faster than nested pairs):
+    fast / slow parts only for the links where they changed *)
+Inductive fdelta := FD (i : Z) (f : list Z).
+Inductive sdelta := SD (i : Z) (keys queue : list Z) (q : float).
+Inductive sstep := ST (o : xop) (ch : Z) (sent : list Z) (fl : list fdelta) (sl : list sdelta).
+Inductive linit := LI (f keys queue : list Z) (q : float).
 
 Fixpoint insert_sorted (x : Z) (l : list Z) : list Z :=
   match l with
@@ -47,25 +51,33 @@ Definition fobs_eqb (a b : fobs) : bool :=
   (fst (fst a) =? fst (fst b)) && zlist_eqb (snd (fst a)) (snd (fst b)) && list_eqb lobs_eqb (snd a) (snd b).
 
 (** ---- expansion of the harness's compact form ---- *)
-Fixpoint find_slow (i : Z) (l : list (Z * slow)) : option slow :=
+Fixpoint find_f (i : Z) (l : list fdelta) : option (list Z) :=
   match l with
   | [] => None
-  | (k, s) :: t => if k =? i then Some s else find_slow i t
+  | FD k f :: t => if k =? i then Some f else find_f i t
   end.
-Fixpoint patch (sl : list (Z * slow)) (i : Z) (prev : list lobs) (fs : list (list Z)) : list lobs :=
-  match prev, fs with
-  | p :: pt, f :: ft =>
-    (f, match find_slow i sl with Some s => s | None => snd p end) :: patch sl (i + 1) pt ft
-  | _, _ => []
+Fixpoint find_s (i : Z) (l : list sdelta) : option slow :=
+  match l with
+  | [] => None
+  | SD k ks qu q :: t => if k =? i then Some (ks, qu, q) else find_s i t
   end.
-Fixpoint expand (prev : list lobs) (steps : list (xop * sobs)) : list (xop * fobs) :=
+Fixpoint patch (fl : list fdelta) (sl : list sdelta) (i : Z) (prev : list lobs) : list lobs :=
+  match prev with
+  | [] => []
+  | p :: pt =>
+    (match find_f i fl with Some f => f | None => fst p end,
+     match find_s i sl with Some s => s | None => snd p end) :: patch fl sl (i + 1) pt
+  end.
+Fixpoint expand (prev : list lobs) (steps : list sstep) : list (xop * fobs) :=
   match steps with
   | [] => []
-  | (o, (ch, sent, fs, sl)) :: t =>
-    let cur := patch sl 0 prev fs in (o, (ch, sent, cur)) :: expand cur t
+  | ST o ch sent fl sl :: t =>
+    let cur := patch fl sl 0 prev in (o, (ch, sent, cur)) :: expand cur t
   end.
+Definition init_obs (l : list linit) : list lobs :=
+  map (fun x => match x with LI f ks qu q => (f, (ks, qu, q)) end) l.
 
-Record case := { c_n : nat; c_grace : Z; c_init : list lobs; c_steps : list (xop * sobs) }.
+Record case := { c_n : nat; c_grace : Z; c_init : list linit; c_steps : list sstep }.
 
 (** ---- accessors on an observed link ---- *)
 Definition fld (n : nat) (l : lobs) : Z := nth n (fst l) 0.
@@ -145,11 +157,12 @@ Fixpoint run_corr (s : shell) (tr : list (xop * fobs)) (i : N) : N :=
 (** result = bit0 (model <> implementation) + bit1 (monitor fails on the implementation's
     trace) + 4 * clause + 1024 * step *)
 Definition check_case (c : case) : N :=
-  let tr := expand (c_init c) (c_steps c) in
+  let i0 := init_obs (c_init c) in
+  let tr := expand i0 (c_steps c) in
   let s0 := xinit (c_n c) (c_grace c) in
-  let corr0 := list_eqb lobs_eqb (obs_shell s0) (c_init c) in
+  let corr0 := list_eqb lobs_eqb (obs_shell s0) i0 in
   let cbad := if corr0 then run_corr s0 tr 0 else 1%N in
-  let '(cl, mbad) := run_mon (c_init c) tr 0 in
+  let '(cl, mbad) := run_mon i0 tr 0 in
   let corr_fail := negb (cbad =? 0)%N in
   let mon_fail := negb (cl =? 0)%N in
   ((if corr_fail then 1 else 0) + (if mon_fail then 2 else 0) + 4 * cl +
